@@ -14,6 +14,15 @@ class Abstractor:
     self.keepalive = []
 
   def dag_size(self, t):
+    i0 = t.get_id()
+    if i0 in self.size:
+      return self.size[i0]
+    r = self._dag_size(t)
+    self.size[i0] = r
+    self.keepalive.append(t)
+    return r
+
+  def _dag_size(self, t):
     seen = set()
     stack = [t]
     n = 0
